@@ -54,7 +54,7 @@ def rules(ctx: Ctx) -> None:
         raise AnalysisError("normaliser escape_identifier_name not found")
     n_sites = 0
     for f in prog.funcs.values():
-        owner = f"{f.cls.name}.{f.name}" if f.cls else f.qual.split(".", 2)[-1]
+        owner = f.owner
         for n in prog.walk_fn(f):
             if not isinstance(n, ast.Call):
                 continue
